@@ -18,7 +18,7 @@ from simdag.core.outcome import Discard, Violation
 
 META = {"C13": {
     "level": "exploration",
-    "quick_runs": 4000,
+    "quick_runs": 30000,
     "block": 100,
     "thorough_budget_s": 600,
     "rule": ("one run = one seeded adversarial name pool (names differing only in punctuation or case, names "
